@@ -427,6 +427,13 @@ qb_rb_chunk_alloc(struct qb_ringbuffer_s * rb, size_t len)
 	 * Reclaim data if we are over writing and we need space
 	 */
 	if (rb->flags & QB_RB_FLAG_OVERWRITE) {
+		/* what the empty ring cannot hold is refused before, not after,
+		 * every chunk has been dropped to make room for it */
+		if ((len + QB_RB_CHUNK_MARGIN) >
+		    (rb->shared_hdr->word_size * sizeof(uint32_t))) {
+			errno = EINVAL;
+			return NULL;
+		}
 		while (qb_rb_space_free(rb) < (len + QB_RB_CHUNK_MARGIN)) {
 			int rc = _rb_chunk_reclaim(rb);
 			if (rc != 0) {
